@@ -72,6 +72,10 @@ def options(draw, scale="country", horizons=None, overrides=False, shutoff=None,
             o["CROP_PRODUCTION_MULTIPLIER"] = draw(st.floats(0, 3).map(lambda x: round(x, 4)))
         if draw(st.integers(0, 3)) == 0:
             o["GRASSES_PRODUCTION_MULTIPLIER"] = draw(st.floats(0, 3).map(lambda x: round(x, 4)))
+        if draw(st.integers(0, 7)) == 0:
+            # starting head count of one species (a column of the input table, documented numeric override)
+            sp = draw(st.sampled_from(["meat_cattle", "milk_cattle", "chicken", "pig", "meat_sheep", "milk_goat", "rabbit", "camelids"]))
+            o[sp + "_head"] = draw(st.sampled_from([0, 1000, 10**6, 10**8]))
         if draw(st.integers(0, 5)) == 0:
             o["kg_meat_per_large_animal"] = draw(st.sampled_from([0.0, 269.7]) | st.floats(0, 600).map(lambda x: round(x, 2)))
     return o
